@@ -115,8 +115,12 @@ def c09_spec(w):
 def c09_gen(r, tier):
     n = 2 if tier == "quick" else 12
     for cls, m in G.all_leaf_shapes():
+        if cls.endswith("DataType") and O.SIG[m] != ("pk", ["value"]):
+            # A type pre-processor's spec value *is* a type name (or list of them): the no-argument and
+            # several-argument callables have no spec form with type-valued arguments (DESIGN §13).
+            continue
         for _ in range(n):
-            a, k = G.gen_leaf_args(r, cls, m)
+            a, k = G.gen_leaf_args(r, cls, m, spec_form=True)
             t = G.leaf(cls, m, *a, **k)
             for key, val in G.leaf_spec_spellings(r, t):
                 yield {"leaf": t, "key": key, "val": val}
@@ -383,7 +387,8 @@ def c10_rules(w):
             return Fail(f"not-equal:{name}", f"{name}({spec!r}) != {show_rule(rt)}", repr(got), repr(api))
         if snap(got.cast) != snap(api.cast):
             return Fail(f"cast:{name}", f"{name}({spec!r}) cast", repr(got.cast), repr(api.cast))
-        if "doc" in spec and not teq(got.doc, doc_want):
+        if "doc" in spec and not (isinstance(got.doc, dict) and sorted(got.doc) == sorted(doc_want) and all(
+                teq(got.doc[k], doc_want[k]) for k in doc_want)):
             return Fail(f"doc:{name}", f"{name}: doc {spec['doc']!r} normalised", got.doc, doc_want)
         for d in docs:
             try:
@@ -526,6 +531,13 @@ def c11_gen(r, tier):
             t = G.leaf(cls, m, *a, **k)
             if all(_json_ok(x) for x in t.get("a", [])):
                 yield {"cond": t}
+    for lit in ({"path": ["a"]}, {"\\path": 1}, {"a": {"path": [1]}}, {"path.length": ["b"]}, {"k": [{"path": [1]}]},
+                [{"path": ["a"]}, 2], {"x.path": 1, "y": 2}):
+        yield {"cond": G.leaf("Value", "equal_to", lit)}
+        yield {"cond": G.leaf("Value", "in_", [lit, 3])}
+    yield {"cond": G.leaf("Value", "in_range", {"$path": {"parts": [{"$prim": "a"}]}}, 9)}
+    yield {"cond": G.leaf("Value", "equal_to", [{"$path": {"parts": [{"$p": "map"}], "mods": ["first"]}}, 2])}
+    yield {"cond": G.leaf("Value", "items_contain", k={"$path": {"parts": [{"$prim": "b"}], "mods": ["length"]}})}
     for _ in range(n):
         t = _c11_cond(r, r.randint(0, 2))
         if _has_key_and_index(t):
@@ -555,8 +567,6 @@ def c12_roundtrip(w):
         specs2 = json.loads(json.dumps(specs))
     except Exception as e:
         return Fail("not-json:" + _c12_sig(p), f"{show_path(p)}.to_part_specs() = {specs!r} is not JSON ({e!r})")
-    if not teq(specs2, specs):
-        return Fail("json-changes:" + _c12_sig(p), f"{show_path(p)}.to_part_specs() = {specs!r} changes through JSON", specs2, specs)
     try:
         path2 = V.d.DataPath.from_part_specs(*copy.deepcopy(specs2))
     except Exception as e:
@@ -719,7 +729,10 @@ def c14_equality(w):
     kind = w["kind"]
     build = {"cond": build_cond, "part": build_part, "path": build_path, "rule": build_rule, "schema": build_schema}[kind]
     terms = w["terms"]
-    objs = [build(t, V) for t in terms]
+    try:
+        objs = [build(t, V) for t in terms]
+    except BuildError:
+        return None                                                  # variant is not a term of the DSL
     relation = w["relation"]            # 'rebuilt' | 'commuted' | 'atom' | 'triple'
     x, y = objs[0], objs[1]
     sig0 = f"{kind}:{relation}:{w.get('what', '')}"
